@@ -440,6 +440,7 @@ async fn run_close(case: &Value) -> Value {
         "abrupt" => CloseManner::Abrupt,
         "fin-only" => CloseManner::FinOnly,
         "exit-leaving-a-helper-that-holds-stderr" => CloseManner::ExitLeavingHelper,
+        "stdout-closed-while-the-process-stays" => CloseManner::StdoutClosedProcessStays,
         "channel-close" => CloseManner::ChannelClose,
         _ => CloseManner::Clean,
     };
@@ -1060,7 +1061,7 @@ pub fn run_c07(cfg: &Cfg) -> i32 {
         let manners: Vec<&str> = match tr {
             Tr::Ssh => vec!["clean", "channel-close", "abrupt", "fin-only"],
             Tr::Tls => vec!["clean", "abrupt", "fin-only"],
-            _ => vec!["clean", "abrupt", "exit-leaving-a-helper-that-holds-stderr"],
+            _ => vec!["clean", "abrupt", "exit-leaving-a-helper-that-holds-stderr", "stdout-closed-while-the-process-stays"],
         };
         for point in ["before-hello", "inside-hello", "hello-without-delimiter", "after-hello-idle", "inside-reply", "reply-without-delimiter", "between-request-and-reply", "after-reply", "pending-close-session"] {
             for manner in &manners {
@@ -1392,6 +1393,18 @@ pub fn gen_password(r: &mut Prng) -> String {
         1 => s.push_str("\r\n"),
         2 => s.insert(0, ' '),
         3 => s.push_str("\n\n"),
+        _ => {}
+    }
+    // first characters to which command-line tools give a meaning of their own (curl's `@file`,
+    // openssl's `file:` / `env:` / `pass:`, an option dash, a home directory): here they are
+    // simply part of the password
+    match r.below(10) {
+        0 | 1 => s.insert(0, '@'),
+        2 => s.insert_str(0, "file:"),
+        3 => s.insert_str(0, "env:"),
+        4 => s.insert_str(0, "pass:"),
+        5 => s.insert(0, '-'),
+        6 => s.insert_str(0, "~/"),
         _ => {}
     }
     s
